@@ -1,5 +1,6 @@
-import SSVerif.Model.Search
+import SSVerif.Model.SearchLex
 import SSVerif.Generated.HistConsts
+import Std.Data.HashMap
 import Driver.Util
 /-! driver sub-command `c01s` (C01, growth stage M10): reads the per-frame dumps of `harness/h_c01s.c`
 (search FSG `SA…`, lextree `P…`/`R…`, and the search state before `fsg_search_start`, after it, after every
@@ -67,6 +68,19 @@ structure Utt where
   mpxOrOdd : Bool := false          -- a pnode with mpx ≠ 0 or n_emit_state ≠ ctx->n_emit_state
   roots : Array (Option Nat) := #[]
   tmats : List (Nat × List Nat) := []
+  -- inputs of the lextree construction
+  nCi : Nat := 0
+  sil : Nat := 0
+  wip : Int := 0
+  pip : Int := 0
+  nState : Nat := 0
+  words : Array WordInfo := #[]
+  ciTab : Array (Nat × Nat) := #[]
+  lrTab : Std.HashMap Nat (Array Nat) := {}
+  ldTab : Std.HashMap Nat (Array Nat) := {}
+  lnTab : Std.HashMap (Nat × Nat) Nat := {}
+  lsTab : Std.HashMap Nat (Array Nat × Array Nat) := {}
+  noDictWord : Bool := false
   cur : Option Dump := none
   prev : Option SState := none
   table : Hist := #[]
@@ -102,6 +116,34 @@ def parseEntry (ws : List String) : Option (Nat × Entry) :=
   | _ => none
 
 def lexTree (u : Utt) : LexTree := { nst := u.nst, nodes := u.nodes, root := u.roots }
+
+/-- the inputs of the lextree construction as dumped (lookups outside the dumped tables give an ssid no
+pnode has, so a model that asks for more than the code does cannot pass by accident) -/
+def lexIn (u : Utt) : LexIn :=
+  let miss := 999999
+  { nCi := u.nCi, sil := u.sil, wip := u.wip, pip := u.pip, shift := u.shift, nst := u.nst, nState := u.nState,
+    word := fun w => u.words.getD w { pron := [] },
+    lrdiph := fun ci lc => match u.lrTab[ci]? with | some a => a.getD lc miss | none => miss,
+    ldiph := fun ci rc lc => match u.ldTab[ci * u.nCi + rc]? with | some a => a.getD lc miss | none => miss,
+    internal := fun dw p => (u.lnTab[(dw, p)]?).getD miss,
+    rcMap := fun ci lc rc => match u.lsTab[ci * u.nCi + lc]? with | some (m, _) => m.getD rc miss | none => miss,
+    rcSsid := fun ci lc j => match u.lsTab[ci * u.nCi + lc]? with | some (_, s) => s.getD j miss | none => miss,
+    ciSsid := fun ci => (u.ciTab.getD ci (miss, miss)).1,
+    tmat := fun ci => (u.ciTab.getD ci (miss, miss)).2 }
+
+/-- `buildLexTree` on the dumped inputs against the dumped lextree, node by node -/
+def buildCompare (u : Utt) (g : Fsg) : String :=
+  let m := buildLexTree (lexIn u) g
+  let lt := lexTree u
+  -- `sil < nCi` is the hypothesis of `C01_build_lexTreeOK`
+  if !(decide (u.sil < u.nCi)) || u.noDictWord then s!"0 silence phone {u.sil} of {u.nCi} CI phones / FSG word missing in the dictionary"
+  else if m.nodes == lt.nodes && m.root == lt.root && m.nst == lt.nst then s!"1 {m.nodes.size}"
+  else
+    let i := ((List.range (max m.nodes.size lt.nodes.size)).find? fun i => m.nodes[i]? != lt.nodes[i]?).getD 0
+    let sh (n : Option PNode) : String := match n with
+      | none => "none"
+      | some n => s!"(owner={n.owner},leaf={n.leaf},link={n.link},succ={n.succ},sib={n.sibling},ci={n.ciExt},ssid={n.ssid},tmat={n.tmatid},ppos={n.ppos},ctxt={n.ctxt},lp={n.logs2prob})"
+    s!"0 sizes={m.nodes.size}/{lt.nodes.size} roots={b01 (m.root == lt.root)} first-diff={i} model={sh m.nodes[i]?} real={sh lt.nodes[i]?}"
 def fsg (u : Utt) : Fsg := { links := u.arcs, start := u.start, final := 0, filler := [] }
 
 def mkState (u : Utt) (d : Dump) : SState :=
@@ -217,6 +259,7 @@ def finishDump (u : Utt) (d : Dump) : Utt := Id.run do
   let mut out : List String := []
   if !u.ltDone then
     out := out ++ [s!"R lt {b01 (decide (LexTreeOK lt g))} {b01 lt.chainsEndB} {lt.nodes.size} {b01 (!u.mpxOrOdd)}"]
+    out := out ++ [s!"R build {buildCompare u g}"]
     out := out ++ [s!"R consts {b01 (u.worst == SSVerif.Generated.Search.worstScore && u.shift == SSVerif.Generated.senscrShift && u.tmatWorst == SSVerif.Generated.Search.tmatWorstScore)}"]
     u := { u with ltDone := true }
   let s' := mkState u d
@@ -274,12 +317,15 @@ def feed (u : Utt) (ws : List String) : Utt :=
     | some f, some t, some lp, some w => { u with arcs := u.arcs.push ⟨f, t, lp, w⟩ }
     | _, _, _, _ => { u with bad := "SA" :: u.bad }
   | "LT" :: _ :: ns :: _ => { u with roots := Array.replicate ((parseNat ns).getD 0) none }
-  | ["P", id, owner, leaf, link, succ, sib, ci, _ppos, tm, _ctxt, mpx, nemit] =>
+  | ["P", id, owner, leaf, link, succ, sib, ci, ppos, tm, ctxt, mpx, nemit, ssid, lp] =>
     match parseNat id, parseNat owner, parseInt link, parseInt succ, parseInt sib, parseNat ci, parseInt tm with
     | some id, some owner, some link, some succ, some sib, some ci, some tm =>
       if id ≠ u.nodes.size then { u with bad := "P-order" :: u.bad } else
       { u with nodes := u.nodes.push { owner, leaf := leaf = "1", link := (optId link).getD 0, succ := optId succ,
-                                       sibling := optId sib, ciExt := ci },
+                                       sibling := optId sib, ciExt := ci, ssid := (parseNat ssid).getD 0, tmatid := tm.toNat,
+                                       ppos := (parseNat ppos).getD 0,
+                                       ctxt := ctxt.toList.foldl (fun a c => 16 * a + (hexVal c).getD 0) 0,
+                                       logs2prob := (parseInt lp).getD 0 },
                tmatOf := u.tmatOf.push tm.toNat,
                mpxOrOdd := u.mpxOrOdd || mpx ≠ "0" || (parseNat nemit).getD 0 ≠ u.nst ||
                  (leaf = "1" && link < 0) }
@@ -288,6 +334,21 @@ def feed (u : Utt) (ws : List String) : Utt :=
     match parseNat s, parseInt r with
     | some s, some r => if s < u.roots.size then { u with roots := u.roots.set! s (optId r) } else { u with bad := "R-range" :: u.bad }
     | _, _ => { u with bad := "R" :: u.bad }
+  | ["LI", nci, sil, wip, pip, ns, _nw] =>
+    { u with nCi := (parseNat nci).getD 0, sil := (parseNat sil).getD 0, wip := (parseInt wip).getD 0,
+             pip := (parseInt pip).getD 0, nState := (parseNat ns).getD 0 }
+  | ["LC", _, ssid, tm] => { u with ciTab := u.ciTab.push ((parseNat ssid).getD 0, (parseNat tm).getD 0) }
+  | "LW" :: _wid :: dw :: ff :: df :: _n :: pron =>
+    let d := (parseInt dw).getD (-1)
+    { u with words := u.words.push { pron := pron.filterMap parseNat, fsgFiller := ff = "1", dictFiller := df = "1", dictWid := d.toNat },
+             noDictWord := u.noDictWord || d < 0 }
+  | "LR" :: ci :: rest => { u with lrTab := u.lrTab.insert ((parseNat ci).getD 0) (rest.filterMap parseNat).toArray }
+  | "LD" :: ci :: rc :: rest =>
+    { u with ldTab := u.ldTab.insert ((parseNat ci).getD 0 * u.nCi + (parseNat rc).getD 0) (rest.filterMap parseNat).toArray }
+  | ["LN", dw, k, ssid] => { u with lnTab := u.lnTab.insert ((parseNat dw).getD 0, (parseNat k).getD 0) ((parseNat ssid).getD 0) }
+  | "LS" :: ci :: lc :: _n :: rest =>
+    let v := (rest.filterMap parseNat).toArray
+    { u with lsTab := u.lsTab.insert ((parseNat ci).getD 0 * u.nCi + (parseNat lc).getD 0) (v.extract 0 u.nCi, v.extract u.nCi v.size) }
   | "T" :: id :: rest =>
     { u with tmats := ((parseNat id).getD 0, rest.filterMap parseNat) :: u.tmats }
   | ["S", "end"] =>
@@ -359,7 +420,7 @@ partial def loop (hin : IO.FS.Stream) (hout : IO.FS.Stream) (u : Utt) : IO Unit 
   | [] => loop hin hout u
   | ">" :: _ => loop hin hout u
   | w :: _ =>
-    if ["K", "SF", "SA", "LT", "P", "R", "T", "S", "A", "M", "E", "X", "V"].contains w then loop hin hout (feed' u ws)
+    if ["K", "SF", "SA", "LT", "P", "R", "T", "S", "A", "M", "E", "X", "V", "LI", "LC", "LW", "LR", "LD", "LN", "LS"].contains w then loop hin hout (feed' u ws)
     else loop hin hout u      -- replies of the other harness commands
 
 def main : IO Unit := do
